@@ -18,12 +18,14 @@ CONSTANTS Conns,        \* connection incarnations (each id connects at most onc
           Faults,       \* subset of {"ends", "dropped", "sdc", "sdb", "sdi"}
           WrongKinds,   \* broker-to-client kinds a client may (wrongly) send
           MsgBudget,    \* number of free client messages per behaviour
+          InitSerial,   \* initial value of the broker's call serial counter (wrap-around configurations)
           ScriptSel,    \* name of the deterministic prefix of inputs ("none", "svc", "svc2", "chan", "lst")
           V0, V1        \* versions of the scripted connections 0 and 1
 
 O == INSTANCE Obs
 
 \* constant values the configuration files cannot write down themselves (tuples)
+SW3 == 3                                                    \* serials 0..3, then wrap (cfg: SerialWrap <- SW3)
 CapsOne == {<<0, 1>>}                                       \* capacity 1
 CapsMany == {<<0, 1>>, <<1, 0>>, <<1, 1>>, <<3, 3>>}        \* 1, 4 (low-water mark), 5, 15 (= "u32::MAX" for B = 4)
 
@@ -63,7 +65,7 @@ ScriptConns == {Script[i].c : i \in {i \in 1..Len(Script) : Script[i].t = "new"}
 NoRec == [t |-> "none"]
 
 Init ==
-  /\ bk = BrokerInit /\ inq = <<>> /\ pc = "idle" /\ rec = NoRec /\ nextCookie = 1 /\ ctype = EmptyFn
+  /\ bk = [BrokerInit EXCEPT !.nextSerial = InitSerial] /\ inq = <<>> /\ pc = "idle" /\ rec = NoRec /\ nextCookie = 1 /\ ctype = EmptyFn
   /\ env = [started |-> {}, ended |-> {}, dropped |-> {}, sent |-> 0, phase |-> 1]
   /\ obs = O!ObsInit
 
